@@ -160,31 +160,22 @@ def r4_frontends(ctx):
     if fn is None:
         r.missing("fn de_inner")
     else:
-        # an if/else-if chain over cfg!(feature = ..), each branch calling exactly one front-end with (locale_file, seed)
-        branches = []
-        node = [s for s in fn.body["stmts"]][-1]["expr"] if fn.body["stmts"] else None
-        while node is not None and node.get("k") == "If":
-            cond = show(node["cond"])
-            calls = [callee_path(c) for c in find_all(node["then"], "Call")]
-            args = [[show(a) for a in c["args"]] for c in find_all(node["then"], "Call")]
-            branches.append((cond, calls, args))
-            node = node.get("else")
+        # evaluated (rules/absint.py): with exactly one file-format feature on, de_inner hands (locale_file, seed) unchanged
+        # to that format's front-end and returns what it returns
+        from rules import absint
+        from rules.absint import AEval, A, B, C
         want = {"json_files": "de_inner_json", "yaml_files": "de_inner_yaml", "json5_files": "de_inner_json5"}
-        seen = {}
-        for cond, calls, args in branches:
-            m = re.search(r'feature\s*=\s*"(\w+)"', cond)
-            if not m or len(calls) != 1:
-                r.viol("R4:de_inner#branch", "de_inner branch `%s` is not a single front-end call" % cond, file=fn.file, line=fn.line)
-                continue
-            seen[m.group(1)] = calls[0]
-            r.inst("de_inner[%s]" % m.group(1), "-> %s(%s)" % (calls[0], ", ".join(args[0])))
-            if want.get(m.group(1)) != calls[0]:
-                r.viol("R4:de_inner#%s" % m.group(1), "feature %s selects %s, expected %s" % (m.group(1), calls[0], want.get(m.group(1))), file=fn.file, line=fn.line)
-            if args[0] != ["locale_file", "seed"]:
-                r.viol("R4:de_inner#%s#args" % m.group(1), "front-end is not called with (locale_file, seed) but (%s)" % ", ".join(args[0]), file=fn.file, line=fn.line)
-        for k in want:
-            if k not in seen:
-                r.viol("R4:de_inner#missing-" + k, "de_inner has no branch for feature " + k, file=fn.file, line=fn.line)
+        for feat, front in want.items():
+            calls = []
+            ev = AEval(inputs=[(r'^cfg!feature="%s"$' % ft, B(ft == feat)) for ft in want], funcs={})
+            ev.path_builtins = {nm: (lambda a, nm=nm: (calls.append((nm, tuple(a))), C("Ok", A("locale-from-" + nm)))[1]) for nm in want.values()}
+            got = ev.run_fn(fn, [A("locale_file"), A("seed")])
+            if isinstance(got, str):
+                r.viol("R4:de_inner#" + feat, "de_inner cannot be evaluated with feature %s: %s" % (feat, got), file=fn.file, line=fn.line)
+            elif calls != [(front, (A("locale_file"), A("seed")))] or got != C("Ok", A("locale-from-" + front)):
+                r.viol("R4:de_inner#" + feat, "with feature %s de_inner calls %s and returns %s; expected %s(locale_file, seed) and its result" % (feat, [(c[0], [absint.fmt(x) for x in c[1]]) for c in calls], absint.fmt(got), front), file=fn.file, line=fn.line)
+            else:
+                r.inst("de_inner[%s]" % feat, "-> %s(locale_file, seed), result returned unchanged" % front)
     # visitor callback set
     need = {"visit_str", "visit_bool", "visit_i64", "visit_u64", "visit_f64", "visit_map", "visit_unit", "visit_seq"}
     have = {fn.name for fn in ast.fns if fn.file.endswith("parse_locales/parsed_value.rs") and fn.impl_self and fn.impl_self.startswith("ParsedValueSeed") and fn.impl_trait and "Visitor" in fn.impl_trait}
